@@ -2,7 +2,10 @@
 From HL Require Export Lib.Bytes Lib.Judge Model.Loader Spec.LoaderSpec.
 Open Scope N_scope.
 
-Record obs := mkObs { ob_nil : bool; ob_order : list N; ob_files : list (N * N); ob_errs : list lerr }.
+(* ob_perrs: the syntax errors of the loaded files (file, line) as the loader reports them; files are not
+   parsed in the model, so this component is compared between loaders (C11), not with the model *)
+Record obs := mkObs { ob_nil : bool; ob_order : list N; ob_files : list (N * N); ob_errs : list lerr;
+                      ob_perrs : list (N * N) }.
 Record case := mkCase { c_fs : fsys; c_lim : limits; c_root : N; c_override : option file; c_obs : obs }.
 
 Definition obs_matches_model (o : obs) (m : lout) : bool :=
